@@ -41,6 +41,9 @@ type Case struct {
 	Archive zipgen.Archive `json:"archive"`
 	Limits  Limits         `json:"limits"`
 	How     [4]string      `json:"limit_choice"` // per limit: tiny | exact-1 | exact | exact+1 | huge (informational)
+	// Global: call the package-level function (which works on the process-wide OS filesystem) instead of the method of
+	// the filesystem object (OS backend only)
+	Global bool `json:"package_level_function,omitempty"`
 }
 
 // ---- reference accounting ---------------------------------------------------------------------------------
@@ -294,6 +297,7 @@ func genCase(t *rapid.T) Case {
 	c.Limits.Recursive = rapid.Bool().Draw(t, "recursive")
 	r := reference(&c.Archive, c.Limits.Recursive && c.Limits.Apply)
 	mf, tot, cnt, dep := r.needs()
+	c.Global = c.Backend == "os" && rapid.IntRange(0, 2).Draw(t, "package-level") == 0
 	generous = rapid.IntRange(0, 2).Draw(t, "generous") == 0
 	focus = ""
 	if rapid.IntRange(0, 2).Draw(t, "focused") == 0 {
@@ -371,7 +375,11 @@ func checkCase(t ev.T, test string, c Case) {
 	box.Backend.Reset()
 	var uerr error
 	ev.Guard(t, prop, test, c, func() {
-		_, uerr = box.FS.UnzipWithContextAndLimits(context.Background(), arch, dest, limits)
+		if c.Global && c.Backend == "os" {
+			_, uerr = filesystem.UnzipWithContextAndLimits(context.Background(), arch, dest, limits)
+		} else {
+			_, uerr = box.FS.UnzipWithContextAndLimits(context.Background(), arch, dest, limits)
+		}
 	})
 	ref := reference(&c.Archive, recursive)
 	mf, tot, cnt, dep := ref.needs()
